@@ -1,19 +1,29 @@
 package c17
 
 // C17 runtime half: deterministic block execution.
-//  * a seeded history (genesis + blocks of really signed transactions: bank, staking, gov with fx messages, crosschain
-//    oracle bonding / claims / pool / batches / oracle-set requests, erc20 conversion, EVM -> precompiles, migrate,
-//    invalid transactions mixed in) is generated against the parent's app instance and written to a file;
-//  * the same history is re-executed (a) in the same process on a fresh app instance and (b) by re-executing this test
-//    binary in several fresh processes with different GOMAXPROCS / TZ / GOGC / GODEBUG / cwd / HOME / DB backend and
-//    staggered start times; app hash, tx-result digests, event digest and validator updates must agree line by line;
-//  * correspondence with the Lean models of the order-sensitive computations (op lines -> Driver/C17.lean): PowerDiff,
-//    GetSupportChains, GetAllBatchFees; repeated calls of the real functions must be bit-identical (monitors).
+//  * a seeded history (genesis + ~35 blocks of really signed transactions: bank, staking, gov with fx messages incl. a
+//    proposal that drops SEVERAL bonded oracles at once and coin registrations, crosschain oracle bonding / housekeeping /
+//    claims / pool with several bridged tokens / fee increase / cancel / one batch per token / bridge calls / oracle-set
+//    requests / time-outs, erc20 conversion both ways, EVM -> precompiles, migrate, invalid transactions and transactions
+//    whose gas limit sits at the boundary of what they need) is generated against the parent's app instance and written
+//    to a file;
+//  * the same history is re-executed (a) in the same process by 8 fresh app instances with different PROCESS HISTORIES
+//    (plain; restarted on the same database before every / some blocks; serving CheckTx + simulations + dry runs of the
+//    injected messages + gRPC queries between blocks; both), (b) by re-executing this test binary in several fresh
+//    processes with different GOMAXPROCS / TZ / GOGC / GODEBUG / cwd / HOME / DB backend, staggered start times and
+//    process-history modes, (c) by child processes whose wall clock is shifted (fakeclock_test.go); app hash, per-store
+//    commit hashes, results hash, per-transaction gas used / wanted and result codes, full result digest, event digest
+//    and validator updates must agree line by line;
+//  * correspondence with the Lean models (op lines -> Driver/C17.lean): PowerDiff, binary64 addition (round53 / fadd),
+//    GetSupportChains, GetAllBatchFees with and without per-token limit / base fees, UpdateProposalOracles (error kind /
+//    unbonding order on a branch of each history's state), gov Tally (sum of per-validator contributions); repeated calls
+//    of the real functions must be bit-identical (monitors).
 
 import (
 	"encoding/json"
 	"fmt"
 	"math"
+	"math/big"
 	"math/rand"
 	"os"
 	"os/exec"
@@ -33,17 +43,12 @@ import (
 	"fxverif/harness/hx"
 )
 
-// replay executes a history on a fresh app instance and returns the observation lines.
-func replay(h *detx.History, db string, dir string) ([]string, error) {
-	c, err := detx.NewChainDB(h.Genesis, db, dir)
-	if err != nil {
-		return nil, err
+// replay executes a history on a fresh app instance in the given replica mode and returns the observation lines.
+func replay(h *detx.History, mode, db, dir string) ([]string, map[string]int, error) {
+	if mode == "" {
+		mode = "plain"
 	}
-	lines := []string{fmt.Sprintf("h=0 apphash=%x", c.AppHash)}
-	for _, b := range h.Blocks {
-		lines = append(lines, c.RunBlock(b).Line())
-	}
-	return lines, nil
+	return replayMode(h, mode, db, dir, h.Seed*31+int64(len(mode)))
 }
 
 // TestC17Child is the body of a child process: replay the history file, write one observation line per block.
@@ -60,7 +65,7 @@ func TestC17Child(t *testing.T) {
 		t.Fatal(err)
 	}
 	cwd, _ := os.Getwd()
-	lines, err := replay(&h, os.Getenv("VERIF_C17_DB"), cwd)
+	lines, _, err := replay(&h, os.Getenv("VERIF_C17_MODE"), os.Getenv("VERIF_C17_DB"), cwd)
 	if err != nil {
 		t.Fatal(err)
 	}
@@ -73,24 +78,34 @@ type variation struct {
 	name string
 	env  []string
 	db   string
+	mode string // process history of the replica: plain | restart | restart-all | sim | sim-restart
 }
 
 var variations = []variation{
-	{"procs1-utc", []string{"GOMAXPROCS=1", "TZ=UTC"}, ""},
-	{"procs4-tokyo-gogc10", []string{"GOMAXPROCS=4", "TZ=Asia/Tokyo", "GOGC=10"}, ""},
-	{"procs16-newyork-leveldb", []string{"GOMAXPROCS=16", "TZ=America/New_York", "GODEBUG=madvdontneed=1"}, "goleveldb"},
-	{"procs2-kiritimati-gogc1", []string{"GOMAXPROCS=2", "TZ=Pacific/Kiritimati", "GOGC=1"}, ""},
-	{"procs8-abidjan-nopreempt", []string{"GOMAXPROCS=8", "TZ=Africa/Abidjan", "GODEBUG=asyncpreemptoff=1"}, ""},
-	{"procs32-lordhowe-gogc400", []string{"GOMAXPROCS=32", "TZ=Australia/Lord_Howe", "GOGC=400"}, "goleveldb"},
+	{"procs1-utc", []string{"GOMAXPROCS=1", "TZ=UTC"}, "", "plain"},
+	{"procs4-tokyo-gogc10-sim", []string{"GOMAXPROCS=4", "TZ=Asia/Tokyo", "GOGC=10"}, "", "sim"},
+	{"procs16-newyork-leveldb-restart", []string{"GOMAXPROCS=16", "TZ=America/New_York", "GODEBUG=madvdontneed=1"}, "goleveldb", "restart"},
+	{"procs2-kiritimati-gogc1", []string{"GOMAXPROCS=2", "TZ=Pacific/Kiritimati", "GOGC=1"}, "", "plain"},
+	{"procs8-abidjan-nopreempt-simrestart", []string{"GOMAXPROCS=8", "TZ=Africa/Abidjan", "GODEBUG=asyncpreemptoff=1"}, "", "sim-restart"},
+	{"procs32-lordhowe-gogc400-leveldb-restartall", []string{"GOMAXPROCS=32", "TZ=Australia/Lord_Howe", "GOGC=400"}, "goleveldb", "restart-all"},
 }
 
+// in-process replicas of every history (besides the generator's own instance, which also served the generator's
+// state reads and gas simulations): >= 8 executions in one process so that Go's per-range-statement randomisation of
+// map iteration gets enough draws, and every process-history mode is covered.
+var inprocModes = []string{"plain", "restart-all", "sim", "plain", "restart", "plain", "sim-restart", "plain"}
+
 func runChild(v variation, idx int, histPath, workDir string) ([]string, string, error) {
+	return runChildBin(os.Args[0], v, idx, histPath, workDir)
+}
+
+func runChildBin(bin string, v variation, idx int, histPath, workDir string) ([]string, string, error) {
 	dir := filepath.Join(workDir, fmt.Sprintf("child%d-%s", idx, v.name))
 	if err := os.MkdirAll(filepath.Join(dir, "home"), 0o755); err != nil {
 		return nil, "", err
 	}
 	obs := filepath.Join(dir, "obs.txt")
-	cmd := exec.Command(os.Args[0], "-test.run", "^TestC17Child$", "-test.timeout", "600s")
+	cmd := exec.Command(bin, "-test.run", "^TestC17Child$", "-test.timeout", "600s")
 	cmd.Dir = dir
 	env := []string{}
 	for _, e := range os.Environ() { // inherit everything except what the variation sets
@@ -101,7 +116,7 @@ func runChild(v variation, idx int, histPath, workDir string) ([]string, string,
 		}
 	}
 	env = append(env, v.env...)
-	env = append(env, "VERIF_C17_CHILD=1", "VERIF_C17_HISTORY="+histPath, "VERIF_C17_OBS="+obs, "VERIF_C17_DB="+v.db, "HOME="+filepath.Join(dir, "home"))
+	env = append(env, "VERIF_C17_CHILD=1", "VERIF_C17_HISTORY="+histPath, "VERIF_C17_OBS="+obs, "VERIF_C17_DB="+v.db, "VERIF_C17_MODE="+v.mode, "HOME="+filepath.Join(dir, "home"))
 	cmd.Env = env
 	outb, err := cmd.CombinedOutput()
 	if err != nil {
@@ -126,8 +141,57 @@ func describeHistory(h *detx.History, path string) []string {
 	return rep
 }
 
+// field returns the value of `name=` in an observation line.
+func field(line, name string) string {
+	for _, f := range strings.Fields(line) {
+		if strings.HasPrefix(f, name+"=") {
+			return f[len(name)+1:]
+		}
+	}
+	return ""
+}
+
+// txDetail names the first transaction of a block whose gas or result code differs between two observation lines.
+func txDetail(a, b string, kinds []string) string {
+	ga, gb := strings.Split(field(a, "gas"), ","), strings.Split(field(b, "gas"), ",")
+	ca, cb := strings.Split(field(a, "codes"), ","), strings.Split(field(b, "codes"), ",")
+	for i := 0; i < len(ga) && i < len(gb); i++ {
+		codeA, codeB := "?", "?"
+		if i < len(ca) && i < len(cb) {
+			codeA, codeB = ca[i], cb[i]
+		}
+		if ga[i] != gb[i] || codeA != codeB {
+			kind := "?"
+			if i < len(kinds) {
+				kind = kinds[i]
+			}
+			return fmt.Sprintf("; first differing tx #%d kind=%s gasUsed/gasWanted %s vs %s, code %s vs %s", i, kind, ga[i], gb[i], codeA, codeB)
+		}
+	}
+	return ""
+}
+
+// storeDetail names the stores whose commit hashes differ between two observation lines.
+func storeDetail(a, b string) string {
+	sa, sb := strings.Split(field(a, "stores"), ","), strings.Split(field(b, "stores"), ",")
+	var diff []string
+	for i := 0; i < len(sa) && i < len(sb); i++ {
+		if sa[i] != sb[i] {
+			name := sa[i]
+			if j := strings.IndexByte(name, ':'); j > 0 {
+				name = name[:j]
+			}
+			diff = append(diff, name)
+		}
+	}
+	if len(diff) == 0 {
+		return ""
+	}
+	return "; diverging stores: " + strings.Join(diff, ",")
+}
+
 // compare reports the first differing line between a reference execution and another one.
-func compare(out *hx.Out, h *detx.History, histPath, refName string, ref []string, name string, got []string) bool {
+func compare(out *hx.Out, h *detx.History, kinds [][]string, histPath, refName string, ref []string, name string, got []string) bool {
 	n := len(ref)
 	if len(got) > n {
 		n = len(got)
@@ -146,7 +210,7 @@ func compare(out *hx.Out, h *detx.History, histPath, refName string, ref []strin
 		fields := detx.DiffFields(a, b)
 		consensus := false
 		for _, f := range fields {
-			if f == "apphash" || f == "results" || f == "valupd" || f == "h" || f == "ntx" || f == "err" {
+			if f == "apphash" || f == "results" || f == "valupd" || f == "h" || f == "ntx" || f == "err" || f == "gas" || f == "codes" || f == "stores" {
 				consensus = true
 			}
 		}
@@ -154,9 +218,18 @@ func compare(out *hx.Out, h *detx.History, histPath, refName string, ref []strin
 		if consensus {
 			cls = "consensus-relevant digest"
 		}
+		note, detail := "", ""
+		if i >= 1 && i-1 < len(h.Blocks) {
+			note = " [" + h.Blocks[i-1].Note + "]"
+			var k []string
+			if i-1 < len(kinds) {
+				k = kinds[i-1]
+			}
+			detail = txDetail(a, b, k) + storeDetail(a, b)
+		}
 		rep := describeHistory(h, histPath)
 		rep = append(rep, "# "+refName+": "+a, "# "+name+": "+b)
-		out.ViolateWith(fmt.Sprintf("nondeterminism: block %d %s differs between executions (%s vs %s): %s", i, strings.Join(fields, "+"), refName, name, cls), rep)
+		out.ViolateWith(fmt.Sprintf("nondeterminism: block %d%s %s differs between executions (%s vs %s): %s%s", i, note, strings.Join(fields, "+"), refName, name, cls, detail), rep)
 		return false
 	}
 	return true
@@ -165,12 +238,28 @@ func compare(out *hx.Out, h *detx.History, histPath, refName string, ref []strin
 func TestC17(t *testing.T) {
 	seed := hx.Seed()
 	out := hx.NewOut()
-	defer out.Close("validation: seeded histories of really signed transactions (bank, staking, gov+fx messages, crosschain bonding/claims/pool/batch/oracle sets, erc20, EVM precompiles, migrate, invalid txs) executed on 2 in-process instances and N fresh processes (GOMAXPROCS/TZ/GOGC/GODEBUG/cwd/HOME/DB/start-time varied); app hash + results hash + full result digest + event digest + validator updates compared per block. correspondence: PowerDiff / GetSupportChains / GetAllBatchFees against the Lean models; monitors: repeated calls bit-identical. non-trivial = distinct (tx kind, result code)")
+	defer out.Close("validation: seeded histories of really signed transactions (bank, staking, gov+fx messages incl. multi-oracle removal, crosschain bonding/claims/pool with several tokens/batches/bridge calls/oracle sets/time-outs, erc20, EVM precompiles, migrate, invalid txs, boundary gas limits) executed on 9 in-process instances (plain / restarted / serving CheckTx+simulations+queries) and N fresh processes (GOMAXPROCS/TZ/GOGC/GODEBUG/cwd/HOME/DB/start-time/process-history/wall-clock-offset varied); app hash + per-store hashes + results hash + per-tx gas and codes + full result digest + event digest + validator updates compared per block. correspondence: PowerDiff / f64add / GetSupportChains / GetAllBatchFees(+limits) / UpdateProposalOracles / gov Tally against the Lean models; monitors: repeated calls bit-identical. non-trivial = distinct (tx kind, result code) and model-op outcome classes")
 	workDir := filepath.Join(hx.OutDir(), "c17")
 	_ = os.RemoveAll(workDir)
 	if err := os.MkdirAll(workDir, 0o755); err != nil {
 		t.Fatal(err)
 	}
+
+	// shifted-wall-clock child binary (background build; quick tier: used only if it is ready in time)
+	var fake *fakeClockBuild
+	if os.Getenv("VERIF_C17_FAKECLOCK") != "0" {
+		wait := 100 * time.Second
+		if hx.Tier() == "thorough" {
+			wait = 20 * time.Minute
+		}
+		fake = startFakeClockBuild(workDir, wait)
+	}
+	type pendingFake struct {
+		g        *gen
+		histPath string
+		ref      []string
+	}
+	var fakeQueue []pendingFake
 
 	nHist := hx.N(3, 20)
 	nChild := 3
@@ -183,6 +272,7 @@ func TestC17(t *testing.T) {
 		}
 	}
 	var lastGen *gen
+	var probes, tallies [][2]string
 	executions := 0
 	for hi := 0; hi < nHist; hi++ {
 		hseed := seed*1000 + int64(hi)
@@ -190,10 +280,12 @@ func TestC17(t *testing.T) {
 		g := newGen(hseed, out)
 		g.run()
 		lastGen = g
+		probes = append(probes, g.probes...)
+		tallies = append(tallies, g.tallies...)
 		ref := []string{fmt.Sprintf("h=0 apphash=%x", g.c.InitResp.AppHash)}
 		okBlocks := 0
-		for _, o := range g.obs {
-			ref = append(ref, o.Line())
+		for i, o := range g.obs {
+			ref = append(ref, g.lines[i])
 			if o.Err == "" {
 				okBlocks++
 			}
@@ -213,17 +305,25 @@ func TestC17(t *testing.T) {
 		}
 		out.Count(fmt.Sprintf("blocks:%d", len(g.obs)))
 
-		// (a) same process, second fresh app instance, decoded back from the file (what the children see)
+		// (a) same process: fresh app instances in every process-history mode, decoded back from the file (what the children see)
 		var h2 detx.History
 		if err = json.Unmarshal(bz, &h2); err != nil {
 			t.Fatal(err)
 		}
-		second, err := replay(&h2, "", workDir)
-		if err != nil {
-			t.Fatal(err)
+		for ri, mode := range inprocModes {
+			name := fmt.Sprintf("inproc-%d-%s", ri, mode)
+			lines, st, err := replayMode(&h2, mode, "", workDir, hseed*131+int64(ri))
+			for k, v := range st {
+				out.Stats.Hist["replica:"+mode+":"+k] += v
+			}
+			if err != nil {
+				out.ViolateWith(fmt.Sprintf("replica %s could not replay the history: %v", name, err), describeHistory(g.hist, histPath))
+				continue
+			}
+			executions++
+			out.Count("replica:" + mode)
+			compare(out, g.hist, g.kinds, histPath, "parent-generator", ref, name, lines)
 		}
-		executions++
-		compare(out, g.hist, histPath, "parent-generator", ref, "parent-second-instance", second)
 
 		// (b) fresh processes, started one second apart
 		type result struct {
@@ -250,15 +350,54 @@ func TestC17(t *testing.T) {
 				continue
 			}
 			executions++
-			compare(out, g.hist, histPath, "parent-generator", ref, name, res[ci].lines)
+			out.Count("replica:process-" + variations[ci].mode)
+			compare(out, g.hist, g.kinds, histPath, "parent-generator", ref, name, res[ci].lines)
 		}
 		// one summary op per history so the op stream records what was compared (the model answers `ok`)
 		out.Count(fmt.Sprintf("children:%d", nChild))
+		if fake != nil && (hi < 3 || hi%5 == 0) {
+			fakeQueue = append(fakeQueue, pendingFake{g, histPath, ref})
+		}
+	}
+	// shifted-clock replicas of the first histories, once the overlay build is there
+	if fake != nil {
+		<-fake.done
+		out.Stats.Extra["fakeclock_build_s"] = int(fake.took.Seconds())
+		if fake.err != nil || fake.bin == "" {
+			out.Count("fakeclock:unavailable")
+			out.Stats.Extra["fakeclock_unavailable"] = fmt.Sprint(fake.err)
+		} else {
+			for qi, q := range fakeQueue {
+				fc := fakeClockOffsets[qi%len(fakeClockOffsets)]
+				v := variation{name: fc.name, env: []string{"GOMAXPROCS=4", "TZ=UTC", fmt.Sprintf("VERIF_FAKE_CLOCK_OFFSET=%d", fc.sec)}, mode: "plain"}
+				lines, tail, err := runChildBin(fake.bin, v, 100+qi, q.histPath, workDir)
+				name := "process-" + v.name
+				if err != nil {
+					out.ViolateWith(fmt.Sprintf("child process %s failed to replay the history: %v", name, err), append(describeHistory(q.g.hist, q.histPath), tail))
+					continue
+				}
+				executions++
+				out.Count("replica:process-fakeclock")
+				compare(out, q.g.hist, q.g.kinds, q.histPath, "parent-generator", q.ref, name, lines)
+			}
+		}
 	}
 	out.Stats.Extra["executions_compared"] = executions
 	out.Stats.Extra["children_per_history"] = nChild
 	out.Stats.Extra["histories"] = nHist
 
+	// UpdateProposalOracles: the real keeper (on a branch of each history's state) against the machine model
+	out.Reset("models-updateoracles")
+	for _, pr := range probes {
+		out.Emit(pr[0], pr[1])
+		out.Nontrivial("updateoracles:" + pr[1][:min(len(pr[1]), 12)])
+	}
+	// gov Tally: the real keeper against "sum of the per-validator contributions" (the structure `tally_perm` is about)
+	out.Reset("models-tally")
+	for _, pr := range tallies {
+		out.Emit(pr[0], pr[1])
+		out.Nontrivial("tally:" + pr[1][:min(len(pr[1]), 10)])
+	}
 	modelOps(t, out, seed, lastGen)
 }
 
@@ -329,6 +468,35 @@ func modelOps(t *testing.T, out *hx.Out, seed int64, g *gen) {
 		}
 	}
 
+	// ---- binary64 addition of integer values against the Lean model (round53 / fadd): boundary-biased around 2^53
+	out.Reset("models-f64add")
+	pick := func() uint64 {
+		switch rng.Intn(6) {
+		case 0:
+			return uint64(rng.Int63n(1 << 32))
+		case 1:
+			return (uint64(1) << 53) + uint64(rng.Intn(9)) - 4
+		case 2:
+			return (uint64(1) << uint(52+rng.Intn(10))) + uint64(rng.Intn(4097)) - 2048
+		case 3:
+			return uint64(rng.Int63())
+		case 4:
+			return uint64(rng.Intn(5))
+		default:
+			return uint64(rng.Int63n(1 << 54))
+		}
+	}
+	for i := 0; i < hx.N(300, 3000); i++ {
+		a, b := pick(), pick()
+		sum := float64(a) + float64(b)
+		v, _ := new(big.Float).SetFloat64(sum).Int(nil)
+		out.Emit(fmt.Sprintf("f64add %d %d", a, b), v.String())
+		out.Count("f64add")
+		if new(big.Int).Add(new(big.Int).SetUint64(a), new(big.Int).SetUint64(b)).Cmp(v) != 0 {
+			out.Nontrivial(fmt.Sprintf("f64add-rounded:%d", v.BitLen()))
+		}
+	}
+
 	// ---- GetSupportChains: sorted, stable across calls
 	out.Reset("models-supportchains")
 	first := crosschaintypes.GetSupportChains()
@@ -394,5 +562,44 @@ func modelOps(t *testing.T, out *hx.Out, seed int64, g *gen) {
 		out.Emit("batchfees "+strings.Join(entries, ";"), ref)
 		out.Count("batchfees")
 		out.Nontrivial(fmt.Sprintf("batchfees:%d", nTok))
+		// the same pool with a per-token limit and base fees: now the STORE ORDER of the pool matters (which transactions
+		// are counted), so the op line carries the pool in iteration order
+		var ordered []string
+		k.IterateUnbatchedTransactions(ctx, "", func(tx *crosschaintypes.OutgoingTransferTx) bool {
+			ordered = append(ordered, fmt.Sprintf("%s:%s:%s", tx.Fee.Contract, tx.Fee.Amount.String(), tx.Token.Amount.String()))
+			return false
+		})
+		for sub := 0; sub < 3; sub++ {
+			maxEl := uint(1 + rng.Intn(6))
+			if sub == 2 {
+				maxEl = uint(len(ordered) + rng.Intn(3))
+			}
+			var mins []crosschaintypes.MinBatchFee
+			var base []string
+			for _, tok := range toks {
+				if rng.Intn(3) == 0 {
+					bf := int64(rng.Intn(1100))
+					mins = append(mins, crosschaintypes.MinBatchFee{TokenContract: tok, BaseFee: sdkmath.NewInt(bf)})
+					base = append(base, fmt.Sprintf("%s:%d", tok, bf))
+				}
+			}
+			bs := "-"
+			if len(base) > 0 {
+				bs = strings.Join(base, ",")
+			}
+			pool := "-"
+			if len(ordered) > 0 {
+				pool = strings.Join(ordered, ";")
+			}
+			refMax := render(k.GetAllBatchFees(ctx, maxEl, mins))
+			for r := 0; r < 10; r++ {
+				if again := render(k.GetAllBatchFees(ctx, maxEl, mins)); again != refMax {
+					out.Violate(fmt.Sprintf("nondeterminism: GetAllBatchFees(maxElements=%d, %d base fees) returns different slices for repeated calls on the same pool", maxEl, len(mins)))
+					break
+				}
+			}
+			out.Emit(fmt.Sprintf("batchfeesmax %d %s %s", maxEl, bs, pool), refMax)
+			out.Count("batchfeesmax")
+		}
 	}
 }
